@@ -73,4 +73,27 @@ def runCmds {P C : Type} (pats : Option (List P)) (m : P → C → Bool) (succes
   | w, c :: cs => runCmds pats m success exec (executeNop pats m success exec w c).1 cs
 end
 
+/-! ## an instance of the world: one connection with an optional open transaction -/
+
+/-- committed rows, and the rows as the open transaction (if any) sees them -/
+structure TxW where
+  committed : List Nat
+  pending : Option (List Nat)
+  deriving DecidableEq, Repr
+
+inductive TxS where
+  | begin | ins (n : Nat) | fail | commit | rollback
+  deriving DecidableEq, Repr
+
+/-- DuckDB as fakesnow drives it: a failing statement (catalog / binder error) leaves an open transaction open -/
+def txExec (w : TxW) : TxS → TxW × Except Unit Unit
+  | .begin => ({ w with pending := some (w.pending.getD w.committed) }, .ok ())
+  | .ins n =>
+    match w.pending with
+    | some rows => ({ w with pending := some (rows ++ [n]) }, .ok ())
+    | none => ({ w with committed := w.committed ++ [n] }, .ok ())
+  | .fail => (w, .error ())
+  | .commit => ({ committed := w.pending.getD w.committed, pending := none }, .ok ())
+  | .rollback => ({ w with pending := none }, .ok ())
+
 end Fs.Split
